@@ -44,6 +44,11 @@ def observe(o: Any) -> Any:
     except Exception as e:  # noqa: BLE001
         d["params"] = ["raised", type(e).__name__]
     d["hash"] = getattr(o, "definition_hash", None)
+    try:
+        d["defaults"] = sorted((q, repr(o.get_default_for(q))) for q in o.inputs if o.has_default_for(q))
+    except Exception as e:  # noqa: BLE001
+        d["defaults"] = ["raised", type(e).__name__]
+    probe = {k: v for k, v in probe.items() if not o.has_default_for(k)} if isinstance(d["defaults"], list) and d["defaults"][:1] != ["raised"] else probe
     if mc:
         probe = {k: ([v, v + 100] if k in mc[0] else v) for k, v in probe.items()}
     with warnings.catch_warnings():
@@ -72,11 +77,15 @@ class C07(Prop):
         while True:
             k = rng.randint(1, 3)
             nodes = []
+            dflt: dict[str, Any] = {}
             avail = ["x"]
             for i in range(k):
                 ins = rng.sample(avail, rng.randint(1, min(2, len(avail))))
                 out = f"o{i}"
-                nodes.append({"name": f"f{i}", "inputs": ins, "outputs": [out]})
+                for q in ins:
+                    if q != "x" and q not in dflt:
+                        dflt[q] = rng.randint(20, 29) if rng.random() < 0.4 else None      # one default per name, shared by all its consumers
+                nodes.append({"name": f"f{i}", "inputs": ins, "outputs": [out], "defaults": {q: dflt[q] for q in ins if dflt.get(q) is not None}})
                 avail.append(out)
                 if rng.random() < 0.4:
                     avail.append(f"y{i}")
@@ -89,7 +98,8 @@ class C07(Prop):
         env = Env()
         objs: list[Any] = []
         for n in case["nodes"]:
-            spec = {"name": n["name"], "kind": "fn", "params": [[p, None] for p in n["inputs"]], "dataOuts": n["outputs"], "body": {"b": "tag", "t": n["name"]}}
+            spec = {"name": n["name"], "kind": "fn", "params": [[p, ({"d": n["defaults"][p]} if p in n.get("defaults", {}) else None)] for p in n["inputs"]],
+                    "dataOuts": n["outputs"], "body": {"b": "tag", "t": n["name"]}}
             objs.append(build.build_node(spec, 0, [], env, async_bodies=False))
         g0 = Graph(list(objs), name="g0")
         objs.append(g0)
